@@ -289,7 +289,7 @@ func emitQueries(r *vlib.R, u *universe, emit func(string), k int) int {
 		q, _ := u.query(r)
 		if r.Chance(2, 5) {
 			if wn := wireName(q); wn != "" {
-				emit(fmt.Sprintf("bl %s %s %d", vlib.Pick(r, []string{"serve", "wserve"}), enc(wn), vlib.Pick(r, qtypes)))
+				emit(fmt.Sprintf("bl %s %s %d", vlib.Pick(r, []string{"serve", "wserve", "serve", "wserve", "iserve"}), enc(wn), vlib.Pick(r, qtypes)))
 				n++
 				continue
 			}
@@ -544,6 +544,36 @@ func genPersistCase(r *vlib.R, emit func(string)) int {
 	return n
 }
 
+// genBulkCase: batches whose size sits on and around the usual chunk sizes.
+func genBulkCase(r *vlib.R, emit func(string)) int {
+	emit("bl new 0.0.0.0 :: _ " + encList([]string{"keep.example.com"}) + " _")
+	n := 1
+	if r.Chance(1, 3) && apiBudget > 0 {
+		apiBudget--
+		emit("bl viaapi -")
+		n++
+	}
+	size := vlib.Pick(r, []int{1, 2, 255, 256, 257, 511, 512, 1000, 1023, 1024, 1025, 2047, 2048, 2048, 2049, 4095, 4096, 4096, 4097})
+	sfx := vlib.Pick(r, []string{"bulk.example.net", "ads.list.example", "b.example.com"})
+	emit(fmt.Sprintf("bl bulk set %d %s", size, enc(sfx)))
+	emit("bl len")
+	emit("bl exists " + enc(fmt.Sprintf("x.%d.%s.", size-1, sfx)))
+	emit("bl iserve " + enc(fmt.Sprintf("%d.%s.", size/2, sfx)) + " 1")
+	n += 3
+	if r.Chance(2, 3) {
+		// remove the same number again, or a chunk-sized part of it
+		k := size
+		if r.Bool() && size > 2048 {
+			k = 2048
+		}
+		emit(fmt.Sprintf("bl bulk remove %d %s", k, enc(sfx)))
+		emit("bl len")
+		emit("bl exists " + enc(fmt.Sprintf("0.%s.", sfx)))
+		n += 3
+	}
+	return n
+}
+
 func genConcCase(r *vlib.R, emit func(string)) int {
 	u := genUniverse(r)
 	emit("bl new 0.0.0.0 :: _ _ _")
@@ -728,7 +758,7 @@ func reserve(r *vlib.R, emit func(string), k int) int {
 		if n >= k {
 			break
 		}
-		emit(fmt.Sprintf("bl %s %s %d", vlib.Pick(r, []string{"serve", "wserve"}), enc(h.qname), h.qtype))
+		emit(fmt.Sprintf("bl %s %s %d", vlib.Pick(r, []string{"serve", "wserve", "iserve"}), enc(h.qname), h.qtype))
 		n++
 		if r.Chance(1, 3) {
 			emit(fmt.Sprintf("bl %s %s %d", vlib.Pick(r, []string{"serve", "wserve"}), enc(h.qname), vlib.Pick(r, qtypes)))
@@ -737,6 +767,9 @@ func reserve(r *vlib.R, emit func(string), k int) int {
 	}
 	return n
 }
+
+// bulkBudget bounds the large-batch cases.
+var bulkBudget int
 
 // remoteBudget bounds the remote-list downloads (each starts a loopback server).
 var remoteBudget int
@@ -934,6 +967,17 @@ func gen(r *vlib.R, n int, tier string, emit func(string)) {
 	emit("bl remote " + mainText() + " 200 " + enc("*.cdn.example.org\n"))
 	emit("bl wserve " + enc("Late2.cdn.example.org.") + " 28")
 	emit("bl serve " + enc("late.cdn.example.org.") + " 16")
+	// the blocked CNAME target asked the way the cache chases it (internal sub-query), and an unlisted one
+	emit("bl iserve " + enc("ads.example.com.") + " 1")
+	emit("bl iserve " + enc("deep.sub.example.com.") + " 28")
+	emit("bl iserve " + enc("example.org.") + " 1")
+	emit("bl iserve " + enc("late.cdn.example.org.") + " 16")
+	// a batch as large as one chunk of whatever chunking an implementation might use
+	emit("bl new 0.0.0.0 :: _ _ _")
+	emit("bl bulk set 2048 " + enc("bulk.example.net"))
+	emit("bl len")
+	emit("bl bulk remove 2048 " + enc("bulk.example.net"))
+	emit("bl len")
 	// a save fails, storage recovers, the operator repeats the same call: it must reach disk
 	emit("bl new 0.0.0.0 :: _ " + encList([]string{"configured.example.com"}) + " _")
 	emit("bl set " + enc("configured.example.com"))
@@ -951,8 +995,10 @@ func gen(r *vlib.R, n int, tier string, emit func(string)) {
 	raceBudget = 8
 	apiBudget = 40
 	remoteBudget = 30
+	bulkBudget = 5
 	if tier == "thorough" {
 		remoteBudget = 400
+		bulkBudget = 40
 		crashes, concs = 150, 300
 		raceBudget = 100
 		apiBudget = 600
@@ -979,6 +1025,9 @@ func gen(r *vlib.R, n int, tier string, emit func(string)) {
 			done += genConcCase(r, emit)
 			nextConc += everyC
 			concs--
+		case bulkBudget > 0 && r.Chance(1, 30):
+			bulkBudget--
+			done += genBulkCase(r, emit)
 		case r.Chance(3, 5):
 			done += genMatchCase(r, emit)
 		default:
